@@ -3,6 +3,7 @@ conflicts with the boolean column the row stores it in and must be an error -- s
 Real text: circuit/src/ops/poseidon_perm/executor.rs  PoseidonPermExecutor::{resolve_boolean_witness, resolve_mmcs_bit, resolve_mmcs_bit2} (whole functions)."""
 import re
 
+from vf.extract import ExtractError
 from vf.unit import Unit, unref_patterns_in_arms
 
 PRELUDE = r'''
@@ -44,6 +45,8 @@ pub open spec fn slot_wid(inputs: Seq<Vec<WitnessId>>, slot: int) -> Option<Witn
 pub fn first_of_slot<'a>(inputs: &'a [Vec<WitnessId>], slot: usize) -> (r: Option<&'a WitnessId>)
     ensures (r matches Some(w) ==> slot_wid(inputs@, slot as int) == Some(*w)), (r is None ==> slot_wid(inputs@, slot as int) is None)
 { unimplemented!() }
+/// the attached value is the base-2 (arity 4: base-4) accumulation of the direction bits of the rows of its chain
+pub uninterp spec fn index_sum_agrees_with_the_chain<F>(e: &PoseidonPermExecutor, v: F) -> bool;
 /// what a successfully read direction bit says about the witness: the slot's value IS the bit (0 or 1); an absent slot reads as false and only off Merkle mode
 pub open spec fn bit_read_ok<F: Field>(e: &PoseidonPermExecutor, inputs: Seq<Vec<WitnessId>>, ctx: &ExecutionContext<F>, slot: int, b: bool) -> bool {
     match slot_wid(inputs, slot) {
@@ -86,8 +89,24 @@ def build():
     r2.requires('fits', 'self.config.wext < 0x1_0000')
     r2.ensures('the_high_direction_bit_is_validated_on_arity4_shapes_and_false_elsewhere',
                'ret matches Ok(b) ==> (if self.config.a4 { bit_read_ok(self, inputs@, ctx, self.config.wext + 2, b) } else { !b })')
+    # ---------------------------------------------------------------- build_trace_row[index_sum]: the attached leaf-index accumulator (open finding: copied, never compared)
+    from units.order import _stmt_at
+    bt = u.extract(E, IMPL, 'build_trace_row', 'PoseidonPermExecutor::build_trace_row[index_sum]')
+    st_ = _stmt_at(bt.body, r'let \(mmcs_index_sum, mmcs_index_sum_idx, mmcs_ctl_enabled\) =')
+    if st_ is None:
+        raise ExtractError('lost anchor in build_trace_row[index_sum]: `let (mmcs_index_sum, mmcs_index_sum_idx, mmcs_ctl_enabled) = ..;`')
+    bt.rewrites.append(('R13', 'function body := the statement `let (mmcs_index_sum, mmcs_index_sum_idx, mmcs_ctl_enabled) = ..;`, then Ok(mmcs_index_sum)', 'everything else of build_trace_row (limb values, CTL flags, the row constructor)'))
+    bt.body = '{\n' + st_ + '\nOk(mmcs_index_sum)\n}'
+    norm(bt)
+    bt.set_sig('R11', 'fn build_trace_row_index_sum<F: Field>(&self, inputs: &[Vec<WitnessId>], ctx: &ExecutionContext<F>, width_ext: usize) -> Result<F, CircuitError>', sliced=True)
+    bt.rewrite_re('R11', r'\bF::ZERO\b', 'F::zero()', min_count=0)
+    bt.requires('slot_exists', 'width_ext < inputs@.len()')
+    bt.ensures('an_attached_accumulator_is_read_from_its_witness', 'ret matches Ok(v) ==> (inputs@[width_ext as int]@.len() == 1 ==> ctx.witness@.dom().contains(inputs@[width_ext as int]@[0]) && v == ctx.witness@[inputs@[width_ext as int]@[0]])')
+    # C19 (open finding): the witness value is copied into the row; nothing compares it with the accumulator the chain's direction bits give (the trace generator recomputes the column, the
+    # witness bus then carries a value the table does not send: run() reports success from conflicting inputs)
+    bt.ensures('H_an_attached_index_accumulator_agrees_with_the_direction_bits_of_its_chain', 'ret matches Ok(v) ==> (inputs@[width_ext as int]@.len() == 1 ==> index_sum_agrees_with_the_chain(self, v))')
     u.text('verus! {\nimpl PoseidonPermExecutor {')
-    for f in (ia, rb, r1, r2):
+    for f in (ia, rb, r1, r2, bt):
         u.emit(f)
     u.text('}\n}')
     return u
